@@ -1162,7 +1162,8 @@ def ex_smooth(c):
     dev = [int(round(v / unit)) for v in d]
     s_scaled = int(min(10 ** 9, np.ceil(s / (unit * unit)))) if np.isfinite(s / (unit * unit)) else 10 ** 9
     e.update(outcome="ok", n=len(y0), dev=dev, s_scaled=s_scaled, s_given=fx(s),
-             same_x=bool(gx.dtype == x0.dtype and gx.tobytes() == x0.tobytes()), same_len=bool(gy.shape == y0.shape),
+             # (x0 was converted to float for the comparison of values: an integer-typed x stays integer-typed, values equal)
+             same_x=bool(gx.shape == x0.shape and np.array_equal(np.asarray(gx, dtype=float), x0)), same_len=bool(gy.shape == y0.shape),
              yf=fxs(y0.tolist()), out=vec(gy), out_none=vec(gnone), out_default=vec(gdef), fun0=vec(fv), direct=vec(fs), warned=bool(warned[0]))
     return e
 
@@ -1263,12 +1264,17 @@ def ex_home(c):
     root = tempfile.mkdtemp(prefix="home-", dir=os.path.join(VERIF, ".scratch"))
     home = os.path.join(root, "h")
     os.makedirs(home)
-    sym = {"default": os.path.join(home, ".traffic-weaver-data"), "env": os.path.join(root, "e", "envdir"),
+    # how the variable names its directory: an absolute path, a path starting with "~" (expanded against HOME), or a path
+    # relative to the working directory (which is the scratch root)
+    envform = c.get("envform", "abs")
+    envval = {"abs": os.path.join(root, "e", "envdir"), "tilde": os.path.join("~", "envdir_t"), "rel": os.path.join("relenv", "envdir")}[envform]
+    envreal = {"abs": os.path.join(root, "e", "envdir"), "tilde": os.path.join(home, "envdir_t"), "rel": os.path.join(root, "relenv", "envdir")}[envform]
+    sym = {"default": os.path.join(home, ".traffic-weaver-data"), "env": envreal,
            "arg": os.path.join(root, "a", "argdir"), "tilde": os.path.join(home, "tildedir")}
     given = {"none": None, "arg": sym["arg"], "tilde": os.path.join("~", "tildedir")}
     os.makedirs(os.path.join(root, "e"))
     os.makedirs(os.path.join(root, "a"))
-    baseline = {"h", "e", "a"}
+    baseline = {"h", "e", "a", "relenv"}
     saved_env = {k: os.environ.get(k) for k in ("HOME", "TRAFFIC_WEAVER_DATA")}
     saved = (base.urlretrieve, base._sha256)
     downloads = []
@@ -1283,7 +1289,7 @@ def ex_home(c):
     cwd0 = os.getcwd()
     os.chdir(root)                     # a path that is not expanded ("~" taken literally) lands in the scratch root
     if c["envset"]:
-        os.environ["TRAFFIC_WEAVER_DATA"] = sym["env"]
+        os.environ["TRAFFIC_WEAVER_DATA"] = envval
     else:
         os.environ.pop("TRAFFIC_WEAVER_DATA", None)
     base.urlretrieve, base._sha256 = urlretrieve, (lambda p: "00")
@@ -1295,7 +1301,7 @@ def ex_home(c):
 
             def go():
                 if k == "setenv":
-                    os.environ["TRAFFIC_WEAVER_DATA"] = sym["env"]
+                    os.environ["TRAFFIC_WEAVER_DATA"] = envval
                     return None
                 if k == "unsetenv":
                     os.environ.pop("TRAFFIC_WEAVER_DATA", None)
@@ -1314,8 +1320,13 @@ def ex_home(c):
                 ret = next((s for s, p in sym.items() if isinstance(o, str) and os.path.realpath(o) == os.path.realpath(p)), "other")
             elif k == "fetch" and oc == "ok":
                 ret = "data" if o == ("data", True) else "other"
-            other = sorted(set(os.listdir(root)) - baseline) + sorted(set(os.listdir(home)) - {".traffic-weaver-data", "tildedir"}) \
-                + sorted(set(os.listdir(os.path.join(root, "e"))) - {"envdir"}) + sorted(set(os.listdir(os.path.join(root, "a"))) - {"argdir"})
+            other = sorted(set(os.listdir(root)) - baseline) + sorted(set(os.listdir(home)) - {".traffic-weaver-data", "tildedir", "envdir_t"}) \
+                + sorted(set(os.listdir(os.path.join(root, "e"))) - {"envdir"}) + sorted(set(os.listdir(os.path.join(root, "a"))) - {"argdir"}) \
+                + (sorted(set(os.listdir(os.path.join(root, "relenv"))) - {"envdir"}) if os.path.isdir(os.path.join(root, "relenv")) else [])
+            if envform != "tilde" and os.path.exists(os.path.join(home, "envdir_t")):
+                other.append("envdir_t")
+            if envform != "rel" and os.path.exists(os.path.join(root, "relenv")):
+                other.append("relenv")
             steps.append({"act": a, "outcome": oc, "ret": ret, "dl": len(downloads) - n0,
                           "exists": sorted(s for s, p in sym.items() if os.path.isdir(p)),
                           "cached": sorted(s for s, p in sym.items() if os.path.isfile(os.path.join(p, "fold", "set.pkl"))),
